@@ -1174,7 +1174,22 @@ class Lowerer:
             self.note('SKELETON: dropped %s at %s (%s)%s' % (c.get('kind'), where(c), str(ex)[:140], (' -- variables now unavailable: ' + ','.join(names)) if names else ''))
             k = f.dropped
             f.dropped += 1
-            return self.ind(d) + '/* skeleton: dropped %s at %s */ DROPPED_STMT_%s_%d;\n' % (c.get('kind'), where(c), f.cname, k)
+            extra = ''
+            if getattr(f, 'skeleton_returns', None) == 'havoc' and not (f.rett.kind == 'b' and f.rett.name == 'void'):
+                rets = []
+                def has_ret(n):
+                    if n.get('kind') == 'ReturnStmt':
+                        rets.append(n)
+                    for x in n.get('inner', []):
+                        if isinstance(x, dict) and x.get('kind') != 'LambdaExpr':
+                            has_ret(x)
+                has_ret(c)
+                if rets:
+                    # over-approximation: the dropped statement may return, with an arbitrary value
+                    self.note('SKELETON: dropped statement at %s contains a return: modelled as an arbitrary-choice return of an arbitrary value' % where(c))
+                    rt = Ty('ptr', to=f.rett.to) if f.rett.kind == 'ref' else f.rett
+                    extra = self.ind(d) + 'if (nondet_bool()) { SKELETON_RETURN(%s); %s; return __skel_ret; }\n' % (f.cname, self.cdecl(rt, '__skel_ret'))
+            return self.ind(d) + '/* skeleton: dropped %s at %s */ DROPPED_STMT_%s_%d;\n' % (c.get('kind'), where(c), f.cname, k) + extra
 
     def block(self, n, d):
         if n.get('kind') == 'CompoundStmt':
